@@ -74,12 +74,33 @@ def items(tier, seed):
     # one triangle configuration with many pairs (P1 x P2: 18 pairs)
     its.append(('tri', 3, 6, 2, 'kernel'))
     its.append(('tri', 3, 6, 5, 'kernel'))
+    if tier == 'thorough':
+        # the big configurations are dealt to SHARDS work items each (disjoint shares of the same enumeration)
+        out = []
+        for it in its:
+            if heavy(it):
+                out += [it + (('shard', k, SHARDS),) for k in range(SHARDS)]
+            else:
+                out.append(it)
+        its = out
     return its
+
+
+SHARDS = 8
+
+
+def heavy(it):
+    if it[0] == 'tri' or it[-1] == 'complex':
+        return False
+    nu, nv, k, mode = it[:4]
+    return (mode in ('line', 'kernel+main') and nu * nv >= 6) or (mode == 'kernel' and nu * nv >= 6 and k >= 3)
 
 
 def cost(item):
     if item[0] == 'tri':
         return 50
+    if isinstance(item[-1], (tuple, list)):
+        return 400
     nu, nv, k, mode = item[:4]
     return (nu * nv) ** 2 * (10 if mode == 'line' else 3 if mode == 'kernel+main' else 1)
 
@@ -113,6 +134,10 @@ class Harness:
         import skfem
         from skfem import MeshLine, MeshTri, Basis
         import skfem.element as E
+        self.shard = None
+        if isinstance(item[-1], (tuple, list)) and item[-1][0] == 'shard':
+            self.shard = (item[-1][1], item[-1][2])
+            item = item[:-1]
         self.cx = item[-1] == 'complex'
         if self.cx:
             item = item[:-1]
@@ -149,11 +174,11 @@ class Harness:
         j = self.uid.get(id(u), -1)
         i = self.vid.get(id(v), -1)
         tid = -1 if th is None else th.tid
-        self.log.append((tid, j, i))
         if th is not None and self.mode in ('kernel', 'kernel+main'):
             if getattr(th, 'kcalls', 0) > 0:
                 s.maybe_yield()
             th.kcalls = getattr(th, 'kcalls', 0) + 1
+        self.log.append((tid, j, i))       # logged when the kernel actually runs (after the hand-back), not when it is reached
         r = u * v * (1. + w.x[0]) + w['c'] * u * v.grad[0] + u.grad[0] * v * w.h
         return r * (1. + 2.j) + 3.j * u * v if self.cx else r
 
@@ -223,6 +248,8 @@ def work(item, tier, seed):
     npairs = nu * nv
     chunks = [len(c) for c in np.array_split(np.arange(npairs), k)]
     label = f"{'tri' if item[0] == 'tri' else 'line'}:{nu}x{nv}:threads={k}:{mode}{':complex' if H.cx else ''}"
+    if H.shard is not None:
+        label += f":shard{H.shard[0]}/{H.shard[1]}"
     sig0 = f"C16|Nu={nu},Nv={nv}|threads={k}|{mode}{':complex' if H.cx else ''}|"
     if H.cx and (not np.iscomplexobj(H.serial.data) or not np.abs(H.serial.data.imag).max() > 0):
         out.harness_error("complex configuration: the serial matrix has no imaginary part")
@@ -248,7 +275,7 @@ def work(item, tier, seed):
     allpairs = collections.Counter((j, i) for j in range(nu) for i in range(nv))
     nrun = 0
     orders = set()
-    for x in S.explore(H.run, preemption_bound=pb, deviation_bound=db):
+    for x in S.explore(H.run, preemption_bound=pb, deviation_bound=db, shard=H.shard):
         nrun += 1
         out.ev()
         out.transitions += len(x.choices)
@@ -295,9 +322,22 @@ def work(item, tier, seed):
     out.states += nrun
     out.traces += nrun
     out.count('schedules', nrun)
-    if mode == 'kernel' and db is None and total is not None and nrun != total:
+    if mode == 'kernel' and db is None and total is not None and H.shard is not None:
+        out.count(f'schedules_of_sharded:{nu}x{nv}:threads={k}', nrun)     # the shares must add up to the total (finish())
+        out.count(f'total_of_sharded:{nu}x{nv}:threads={k}:{total}', 1)
+    elif mode == 'kernel' and db is None and total is not None and nrun != total:
         out.violation(sig0 + 'harness-count', f"explored {nrun} schedules, expected {total}", case={'config': label})
     return out
+
+
+def finish(total, tier, seed):
+    # sharded full enumerations: the shares must add up to the multinomial count (nothing lost, nothing twice)
+    for key in [k for k in total.counters if k.startswith('total_of_sharded:')]:
+        _, cfg, thr, tot = key.split(':')
+        got = total.counters.get(f'schedules_of_sharded:{cfg}:{thr}', 0)
+        if total.counters[key] == SHARDS and got != int(tot):
+            total.violation(f"C16|{cfg}|{thr}|kernel|harness-count", f"shards explored {got} schedules in total, expected {tot}",
+                            case={'config': f'{cfg}:{thr}'})
 
 
 def replay(rec, tier, seed):
